@@ -19,7 +19,7 @@ Import ListNotations.
    effects.  [src_wf]: the source files of the ExternalTensor inputs are not inside the temporary directory
    (part of mkdtemp's contract: its name is unpredictable). *)
 Theorem C08_crash_atomic :
-  forall fs0 tens small sc k, single_wf fs0 sc -> src_wf fs0 tens sc ->
+  forall fs0 tens small sc k, sc_par sc = None -> single_wf fs0 sc -> src_wf fs0 tens sc ->
   let dest := dest_of fs0 (sc_req sc) in
   let s := fst (run_prefix k fs0 tens small sc) in
   length (s_trace s) <= k /\
@@ -32,7 +32,7 @@ Print Assumptions C08_crash_atomic.
 (* the same under any combination of a kill point and a single injected fault, and whatever kind of
    exception (Exception or BaseException-only, see is_base_exception) a tensor or callback raises *)
 Theorem C08_interrupt_atomic :
-  forall fs0 tens small sc c, single_wf fs0 sc -> src_wf fs0 tens sc ->
+  forall fs0 tens small sc c, sc_par sc = None -> single_wf fs0 sc -> src_wf fs0 tens sc ->
   let dest := dest_of fs0 (sc_req sc) in
   let s := fst (run c fs0 tens small sc) in
   lookup (s_fs s) dest = lookup fs0 dest
@@ -44,12 +44,38 @@ Print Assumptions C08_interrupt_atomic.
 (* the functional core: the completely written temporary file holds exactly [image], for every tensor kind
    (in-memory, lazy, third-party multi-chunk, ExternalTensor copied in chunks of any size) *)
 Theorem C08_new_is_image :
-  forall fs0 tens sc c d m, src_wf fs0 tens sc ->
+  forall fs0 tens sc c d m, sc_par sc = None -> src_wf fs0 tens sc ->
   replaced_by_complete c fs0 tens sc d m -> d = image fs0 tens (sc_tensors sc).
-Proof. intros fs0 tens sc c d m Hs (s1 & HA & HP). exact (prerepl_image fs0 tens sc c s1 d m Hs HA HP). Qed.
+Proof. intros fs0 tens sc c d m Hp Hs (s1 & HA & HP). exact (prerepl_image fs0 tens sc c s1 d m Hp Hs HA HP). Qed.
 Print Assumptions C08_new_is_image.
 
-(* without src_wf: the destination node is untouched or was moved wholesale from the temporary path after
+(* The PARALLEL writer (_write_parallel: sc_par = Some total; preallocation of the temporary file to [total]
+   bytes, a worker's r+b handle, writes at offsets, close; under the maximally serialised schedule): the same
+   crash/fault atomicity.  The complete new bytes are every tensor's bytes at its offset over [total] zero
+   bytes.  Faults at open(wb)/truncate/close of the preallocation, at open(r+b), at every write and at the
+   close of the worker handle are all covered (ctl), as is every kill point. *)
+Theorem C08_crash_atomic_parallel :
+  forall fs0 tens small sc k total, sc_par sc = Some total -> single_wf fs0 sc -> src_wf fs0 tens sc ->
+  let dest := dest_of fs0 (sc_req sc) in
+  let s := fst (run_prefix k fs0 tens small sc) in
+  length (s_trace s) <= k /\
+  (lookup (s_fs s) dest = lookup fs0 dest
+   \/ exists m, lookup (s_fs s) dest = Some (File (image_from fs0 tens (repeat 0%N total) (sc_tensors sc)) m)
+        /\ In (OReplace (tmpf_of sc dest) dest) (s_trace s)).
+Proof. exact crash_atomic_image_par. Qed.
+Print Assumptions C08_crash_atomic_parallel.
+
+Theorem C08_interrupt_atomic_parallel :
+  forall fs0 tens small sc c total, sc_par sc = Some total -> single_wf fs0 sc -> src_wf fs0 tens sc ->
+  let dest := dest_of fs0 (sc_req sc) in
+  let s := fst (run c fs0 tens small sc) in
+  lookup (s_fs s) dest = lookup fs0 dest
+  \/ exists m, lookup (s_fs s) dest = Some (File (image_from fs0 tens (repeat 0%N total) (sc_tensors sc)) m)
+       /\ In (OReplace (tmpf_of sc dest) dest) (s_trace s).
+Proof. exact interrupt_atomic_image_par. Qed.
+Print Assumptions C08_interrupt_atomic_parallel.
+
+(* without src_wf, either writer: the destination node is untouched or was moved wholesale from the temporary path after
    every action between its creation and os.replace returned normally (never a mixture or truncation) *)
 Theorem C08_interrupt_structural :
   forall fs0 tens small sc c, single_wf fs0 sc ->
@@ -93,7 +119,7 @@ Definition nul_tens : list tstate :=
   [{| t_path := [0%N]; t_off := 0; t_len := 2; t_valid := true; t_map := None |}].
 Definition nul_sc : scn :=
   {| sc_req := [1%N]; sc_tmpd := [7%N]; sc_tensors := [(0, TExt 0)]; sc_chunk := 4; sc_cb := None; sc_cbbase := 0;
-     sc_aliases := []; sc_held := [] |}.
+     sc_aliases := []; sc_held := []; sc_par := None |}.
 Theorem C08_samefile_valueerror_before_fix :
   snd (run no_ctl nul_fs nul_tens [] nul_sc) = SRaise ValueError
   /\ s_fs (fst (run no_ctl nul_fs nul_tens [] nul_sc)) = nul_fs.
@@ -155,11 +181,11 @@ Definition ex_tens : list tstate :=
   [{| t_path := [1%N]; t_off := 1; t_len := 2; t_valid := true; t_map := None |}].
 Definition ex_sc : scn :=
   {| sc_req := [1%N]; sc_tmpd := [7%N]; sc_tensors := [(0, TExt 0); (2, TMem [5%N; 6%N; 7%N])];
-     sc_chunk := 1; sc_cb := Some None; sc_cbbase := 0; sc_aliases := []; sc_held := [] |}.
+     sc_chunk := 1; sc_cb := Some None; sc_cbbase := 0; sc_aliases := []; sc_held := []; sc_par := None |}.
 (* Ctrl-C (KeyboardInterrupt) delivered while the progress callback of the second tensor runs *)
 Definition ex_sc_kbd : scn :=
   {| sc_req := [1%N]; sc_tmpd := [7%N]; sc_tensors := [(0, TExt 0); (2, TMem [5%N; 6%N; 7%N])];
-     sc_chunk := 1; sc_cb := Some (Some (1, OtherError)); sc_cbbase := 0; sc_aliases := []; sc_held := [] |}.
+     sc_chunk := 1; sc_cb := Some (Some (1, OtherError)); sc_cbbase := 0; sc_aliases := []; sc_held := []; sc_par := None |}.
 
 Example ex_wf : single_wf ex_fs ex_sc.
 Proof.
@@ -186,11 +212,21 @@ Definition held_tens : list tstate :=
   [{| t_path := [1%N]; t_off := 1; t_len := 2; t_valid := true; t_map := Some [1%N; 2%N; 3%N; 4%N] |}].
 Definition held_sc : scn :=
   {| sc_req := [1%N]; sc_tmpd := [7%N]; sc_tensors := [(0, TExt 0); (2, TMem [5%N; 6%N; 7%N])];
-     sc_chunk := 8; sc_cb := None; sc_cbbase := 0; sc_aliases := []; sc_held := [0] |}.
+     sc_chunk := 8; sc_cb := None; sc_cbbase := 0; sc_aliases := []; sc_held := [0]; sc_par := None |}.
 Example ex_held_view_clean :
   snd (run no_ctl ex_fs held_tens [] held_sc) = SRaise OtherError
   /\ s_fs (fst (run no_ctl ex_fs held_tens [] held_sc)) = ex_fs
   /\ map t_valid (s_tens (fst (run no_ctl ex_fs held_tens [] held_sc))) = [true].
+Proof. vm_compute. repeat split; reflexivity. Qed.
+(* the parallel writer on the example: same bytes as the serial image (5 = preallocated size) *)
+Definition ex_sc_par : scn :=
+  {| sc_req := [1%N]; sc_tmpd := [7%N]; sc_tensors := [(0, TExt 0); (2, TMem [5%N; 6%N; 7%N])];
+     sc_chunk := 1; sc_cb := Some None; sc_cbbase := 0; sc_aliases := []; sc_held := []; sc_par := Some 5 |}.
+Example ex_parallel_complete :
+  lookup (s_fs (fst (run no_ctl ex_fs ex_tens [] ex_sc_par))) [1%N] = Some (File [2%N; 3%N; 5%N; 6%N; 7%N] 384%N)
+  /\ image_from ex_fs ex_tens (repeat 0%N 5) (sc_tensors ex_sc_par) = image ex_fs ex_tens (sc_tensors ex_sc)
+  /\ snd (run {| crash_at := None; fault_at := Some 14 |} ex_fs ex_tens [] ex_sc_par) = SRaise OSError
+  /\ s_fs (fst (run {| crash_at := None; fault_at := Some 14 |} ex_fs ex_tens [] ex_sc_par)) = ex_fs.
 Proof. vm_compute. repeat split; reflexivity. Qed.
 Example ex_src_wf : src_wf ex_fs ex_tens ex_sc.
 Proof. intros [|[|h]] x H; simpl in H; inversion H; subst; split; reflexivity. Qed.
@@ -206,7 +242,7 @@ Definition hl_tens : list tstate :=
    {| t_path := [1%N]; t_off := 0; t_len := 2; t_valid := true; t_map := None |}].
 Definition hl_sc : scn :=
   {| sc_req := [1%N]; sc_tmpd := [7%N]; sc_tensors := [(0, TExt 0); (2, TExt 1)]; sc_chunk := 8; sc_cb := None;
-     sc_cbbase := 0; sc_aliases := [[2%N]]; sc_held := [] |}.
+     sc_cbbase := 0; sc_aliases := [[2%N]]; sc_held := []; sc_par := None |}.
 Example ex_hardlink_alias_stays_valid :
   overwritten hl_fs hl_tens hl_sc = [0; 1] /\ invalidated hl_fs hl_tens hl_sc = [1]
   /\ map t_valid (s_tens (fst (run no_ctl hl_fs hl_tens [] hl_sc))) = [true; false]
@@ -216,5 +252,5 @@ Proof. vm_compute. repeat split; reflexivity. Qed.
 Example ex_image : image ex_fs ex_tens (sc_tensors ex_sc) = [2%N; 3%N; 5%N; 6%N; 7%N].
 Proof. vm_compute. reflexivity. Qed.
 Example ex_shard_wf : Forall (shard_wf ex_fs) [ {| sc_req := [3%N]; sc_tmpd := [7%N]; sc_tensors := [(0, TMem [5%N])];
-     sc_chunk := 1; sc_cb := None; sc_cbbase := 0; sc_aliases := []; sc_held := [] |} ].
+     sc_chunk := 1; sc_cb := None; sc_cbbase := 0; sc_aliases := []; sc_held := []; sc_par := None |} ].
 Proof. constructor; [|constructor]. unfold shard_wf. simpl. repeat split; discriminate. Qed.
